@@ -288,6 +288,38 @@ func init() {
 			}
 		}})
 
+	register(&Rule{ID: "C13.pull", Props: []string{"C13", "C12"}, Floor: 1,
+		Doc: "settling a validator always pulls its pending rewards from x/distribution, unless the module holds no delegation on it",
+		Run: func(e *Engine, r *RuleRun) {
+			fn := r.Need("keeper.Keeper.ClaimValidatorRewards")
+			if fn == nil {
+				return
+			}
+			fk, fa := FuncKey(fn), e.FA(fn)
+			wd := r.One(fn, "withdraw", "types.DistributionKeeper.WithdrawDelegationRewards")
+			if wd == nil {
+				return
+			}
+			// exempt: the staking lookup of the module's own delegation on this validator failed (nothing can be pending)
+			prune := func(g Guard) bool {
+				if g.Cond.Op != "binop" || !g.Pos || g.Cond.Name != "!=" {
+					return false
+				}
+				a := g.Cond.Args[0]
+				if a.Op != "extract" || !a.Args[0].IsCall("types.StakingKeeper.GetDelegation") {
+					return false
+				}
+				c := a.Args[0]
+				return len(c.Args) >= 4 && c.Args[2].IsCall("types.AccountKeeper.GetModuleAddress") && c.Args[3].Eq(argT(fa, wd, 2))
+			}
+			first := fn.Blocks[0].Instrs[0]
+			if trail := fa.mustReachPruned(first, []ssa.Instruction{wd}, func(ret *ssa.Return) bool { return !fa.IsErrorExit(ret) }, prune); trail != nil {
+				r.Bad(fk, "pending rewards are pulled on every success path", "ClaimValidatorRewards can return success without withdrawing the validator's pending rewards from x/distribution although the module holds a delegation on it: every caller relies on this call to fold pending rewards into the indices before stake or weight changes, so rewards earned before the change are later split over the positions that exist after it", trail, r.P(wd))
+			} else {
+				r.OK(fk, "pending rewards are pulled on every success path", "only exit without a withdrawal: x/staking has no delegation of the module on this validator", r.P(wd))
+			}
+		}})
+
 	register(&Rule{ID: "C12.round", Props: []string{"C12", "C05"}, Floor: 4,
 		Doc: "entitlement-side fixed-point operations truncate (never round up)",
 		Run: func(e *Engine, r *RuleRun) {
